@@ -3,9 +3,13 @@ Driver for the state-space family: a postfix stack program per line.
   leaf   : `L n p m dt A… B… C… D…`   (row major, sizes implied)
   scalar : `S q`      array : `A p m v…`
   ops    : neg | pow k | fb sign | lft nu ny | sel nr r… nc c… | add sub mul div append
+  bdalg  : series k | parallel k | appendn k   (the k topmost operands, in call order; the folds
+           of `Model/C02Bdalg.lean`) | negate | tosys (`_convert_to_statespace`, the first
+           operand of the function form of feedback)
 -/
 import CtrlVerif.Driver.Mat
 import CtrlVerif.Model.SSDyn
+import CtrlVerif.Model.C02Bdalg
 
 namespace CtrlVerif.Driver.SS
 
@@ -64,6 +68,28 @@ def binop (name : String) (a b : SOperand Q) : Except String (Except Err (SOpera
   | "append", a, b => pure (wrap ((DSS.toSys a).append (DSS.toSys b)))
   | _, _, _ => throw s!"binop:{name}"
 
+def bdFn? : String → Option BdFn
+  | "series" => some .series
+  | "parallel" => some .parallel
+  | "appendn" => some .append
+  | _ => none
+
+/-- `DSS.bdFoldOp` (the fold of `bdalg.series / parallel / append`), every intermediate result
+tabulated and its bit size recorded. -/
+def bdFoldForced (f : BdFn) : SOperand Q → List (SOperand Q) → Nat →
+    Except SSEvalErr (SOperand Q × Nat)
+  | acc, [], mb => .ok (acc, mb)
+  | acc, y :: l, mb =>
+    match DSS.bdStepOp f acc y with
+    | none => .error .bad
+    | some (.error e) => .error (.err e)
+    | some (.ok r) => let r' := forceOp r; bdFoldForced f r' l (max mb (bitsOp r'))
+
+/-- `DSS.bdalg` with the intermediate results tabulated. -/
+def bdalgForced (f : BdFn) : List (SOperand Q) → Nat → Except SSEvalErr (SOperand Q × Nat)
+  | [], _ => .error .bad
+  | a :: l, mb => bdFoldForced f (forceOp (DSS.bdSeed a l)) l mb
+
 partial def run (stack : List (SOperand Q)) (mb : Nat := 0) : P String := do
   if (← atEnd) then
     match stack with
@@ -79,10 +105,25 @@ partial def run (stack : List (SOperand Q)) (mb : Nat := 0) : P String := do
       let m ← pNat
       let D ← pMatSized p m
       run (.array p m D :: stack) mb
-    | "neg" =>
+    | "neg" | "negate" =>
       match stack with
       | x :: rest => run (forceOp (DSS.SOperand.neg x) :: rest) mb
       | _ => throw "stack"
+    | "tosys" =>
+      match stack with
+      | x :: rest => run (.sys (DSS.toSys x) :: rest) mb
+      | _ => throw "stack"
+    | "series" | "parallel" | "appendn" =>
+      let k ← pNat
+      match bdFn? t with
+      | none => throw "bdalg"
+      | some f =>
+        if stack.length < k then throw "stack"
+        else
+          match bdalgForced f (stack.take k).reverse mb with
+          | .ok (y, mb') => run (y :: stack.drop k) mb'
+          | .error .bad => throw s!"bdalg:{t}"
+          | .error (.err e) => pure (showErr e)
     | "pow" =>
       let k ← pInt
       match stack with
